@@ -165,6 +165,15 @@ func (t *SecureTrie) Root() []byte {
 
 func (t *SecureTrie) Copy() *SecureTrie {
 	cpy := *t
+	// The copy owns a key-preimage cache of its own that starts from what the original has
+	// recorded so far: if only the copy is committed, those preimages must not be lost.
+	cpy.secKeyCache = make(map[string][]byte, len(t.secKeyCache))
+	if t.secKeyCacheOwner == t {
+		for k, v := range t.secKeyCache {
+			cpy.secKeyCache[k] = v
+		}
+	}
+	cpy.secKeyCacheOwner = &cpy
 	return &cpy
 }
 
